@@ -5,4 +5,5 @@ pub mod vz;
 pub mod stubs;
 pub mod c01_lwe;
 pub mod c02;
+pub mod c19;
 pub mod generated;
